@@ -6,6 +6,7 @@ package stream
 
 import (
 	"context"
+	"time"
 
 	"github.com/conduitio/conduit/pkg/foundation/cerrors"
 )
@@ -13,6 +14,110 @@ import (
 func init() {
 	verifRegister("VerifC13Reconfigure", VerifC13Reconfigure)
 	verifRegister("VerifC12Stopper", VerifC12Stopper)
+	verifRegister("VerifC13DuringStop", VerifC13DuringStop)
+	verifRegister("VerifC13CancelMidOpen", VerifC13CancelMidOpen)
+}
+
+// VerifC13CancelMidOpen: request R1 has been claimed by the node and its new
+// processor is being opened (slowly); a second request R2 is accepted and staged
+// behind it; then R1's caller gives up. R1's swap still completes, and R2 -
+// an accepted request - is applied after it: the last accepted configuration
+// is the one that ends up processing records.
+func VerifC13CancelMidOpen() {
+	K := 2
+	p := buildPipeline(sCfg{K: K, M: 1, dlqSize: 0, dlqTh: 0, stopAfter: K, pauseAt: 1, procKinds: []int{spSingle}, ackOnly: true})
+	old := p.w.procs[0]
+	old.version = 1
+	old.stamps = map[int]int{}
+	fresh := &sProc{w: p.w, id: "proc-new", version: 2, kinds: []int{spSingle}, stamps: old.stamps, openEntered: make(chan struct{}), openGate: make(chan struct{})}
+	other := &sProc{w: p.w, id: "proc-other", version: 3, kinds: []int{spSingle}, stamps: old.stamps}
+	p.start()
+	select {
+	case <-p.w.src.paused:
+	case <-p.ctx.Done():
+	}
+	r1ctx, r1cancel := context.WithCancel(p.ctx)
+	var err1, err2 error
+	r1done, r2done := make(chan struct{}), make(chan struct{})
+	go func() { defer close(r1done); err1 = p.procNode.Reconfigure(r1ctx, fresh) }()
+	<-fresh.openEntered // the node claimed R1 and is inside Open
+	go func() { defer close(r2done); err2 = p.procNode.Reconfigure(p.ctx, other) }()
+	for staged := false; !staged; { // wait until R2 is staged
+		p.procNode.swapMu.Lock()
+		staged = p.procNode.pending != nil
+		p.procNode.swapMu.Unlock()
+		if !staged {
+			time.Sleep(time.Millisecond)
+		}
+	}
+	r1cancel()
+	<-r1done
+	close(fresh.openGate) // R1's Open completes
+	<-r2done
+	verifAssert(err1 != nil, "c13-cancel")
+	verifAssert(err2 == nil, "c13-accepted-request-discarded")
+	close(p.w.src.resume)
+	select {
+	case <-p.w.src.served:
+	case <-p.ctx.Done():
+	}
+	stopErr := p.src.Stop(p.ctx, nil)
+	runErr := p.wait()
+	p.w.checkEnd(runErr == nil && stopErr == nil)
+	p.w.mu.Lock()
+	defer p.w.mu.Unlock()
+	verifAssert(other.opened == 1, "c13-accepted-request-discarded")
+	d := p.w.dests[0]
+	for k, v := range d.versions {
+		if d.writes[k] >= 1 {
+			// read after both requests were answered: the last accepted configuration
+			verifAssert(v == 3, "c13-record-after-switch-used-old")
+		}
+	}
+	verifCover("end")
+}
+
+// VerifC13DuringStop: a reconfigure request (whose caller cannot be cancelled,
+// as provisioning's in-place apply) lands while the pipeline is stopping or
+// after the processor node has already exited. The caller must get an answer:
+// either the swap was applied or an error; it is never left waiting.
+func VerifC13DuringStop() {
+	p := buildPipeline(sCfg{K: 1, M: 1, dlqSize: 0, dlqTh: 0, stopAfter: 1, procKinds: []int{spSingle}})
+	old := p.w.procs[0]
+	old.version = 1
+	old.stamps = map[int]int{}
+	fresh := &sProc{w: p.w, id: "proc-new", version: 2, kinds: []int{spSingle}, stamps: old.stamps}
+	p.start()
+	select {
+	case <-p.w.src.served:
+	case <-p.ctx.Done():
+	}
+	after := verifBool("afterNodeExit")
+	var rerr error
+	answered := make(chan struct{})
+	request := func() {
+		defer close(answered)
+		rerr = p.procNode.Reconfigure(context.Background(), fresh)
+	}
+	if !after {
+		go request()
+		verifYield()
+	}
+	stopErr := p.src.Stop(p.ctx, nil)
+	runErr := p.wait()
+	if after {
+		go request()
+	}
+	<-answered
+	p.w.checkEnd(runErr == nil && stopErr == nil)
+	p.w.mu.Lock()
+	defer p.w.mu.Unlock()
+	if rerr == nil {
+		verifAssert(fresh.opened == 1, "c13-new-not-opened-once")
+		verifCover("applied")
+	} else {
+		verifCover("refused")
+	}
 }
 
 // VerifC12Stopper: forceStopper.start and stop in both orders and overlapped:
